@@ -314,6 +314,18 @@ func (c *streamCtx) checkDamage(ds []dmgSpec, piece int, count func(string)) str
 		count("damage_noop")
 		return ""
 	}
+	// the hypothesis of the damage theorems (no checksum collision), evaluated with the real CRC
+	if noForgery(c.S, c.lay, dmg) {
+		count("no_forgery_held")
+	} else {
+		count("no_forgery_failed_case_skipped")
+		for _, m := range [][2]bool{{false, true}, {true, true}, {false, false}, {true, false}} {
+			if _, pm := readImpl(dmg, m[0], m[1], piece); pm != "" {
+				return fmt.Sprintf("damage: reader (strict=%v checksum=%v) panicked/hung: %s", m[0], m[1], pm)
+			}
+		}
+		return ""
+	}
 	must := make([]bool, len(c.rs))
 	lead := 0 // records lying entirely in blocks before the first damaged one
 	leading := true
@@ -544,7 +556,7 @@ func runStream(idx int, r *vlib.RNG, bs int, maxBlocks int, bud budget, wantK bo
 			count("k_" + what)
 			out.kc = append(out.kc, kcase{text, cost})
 		}
-		addK(fmt.Sprintf("CWrite %s [%s]", coqSegs(c.S), strings.Join(recSegs, "; ")), 3*cost, "write")
+		addK(fmt.Sprintf("CWrite %s [%s]", coqSegs(c.S), strings.Join(recSegs, "; ")), 2*cost, "write")
 		modes := [][2]bool{{false, true}, {true, true}, {false, false}, {true, false}}
 		for i := 0; i < bud.kCuts && len(cuts) > 0; i++ {
 			n := cuts[r.Intn(len(cuts))]
@@ -656,12 +668,12 @@ func main() {
 	}
 
 	// ---- budgets
-	nStreams, nBig, maxBlocks, kStreams, kBig := 260, 24, 3, 56, 4
-	bud := budget{cutExtra: 150, cutAllBelow: 2500, damages: 40, kCuts: 2, kDamages: 4}
-	kBudget := 1500 // model block reads
+	nStreams, nBig, maxBlocks, kStreams, kBig := 200, 16, 3, 56, 4
+	bud := budget{cutExtra: 100, cutAllBelow: 2000, damages: 36, kCuts: 2, kDamages: 4}
+	kBudget := 900 // model block reads (about 0.1 s of coqc each)
 	if a.Thorough() {
-		nStreams, nBig, kStreams, kBig = 5000, 300, 400, 24
-		bud = budget{cutExtra: 1500, cutAllBelow: 70000, damages: 400, kCuts: 4, kDamages: 8}
+		nStreams, nBig, kStreams, kBig = 3000, 200, 400, 24
+		bud = budget{cutExtra: 800, cutAllBelow: 40000, damages: 250, kCuts: 4, kDamages: 8}
 		kBudget = 40000
 	}
 	if a.Extra == "search" {
